@@ -201,15 +201,30 @@ func buildR(seed int64, t [8]ref.Point, r *big.Int) []*ent {
 	return s.out
 }
 
+// The context strings are SHARED between the ctx and the ph variants (same 1-byte, mid-length and 255-byte
+// strings), so that anything the library might key by the context alone (a cached dom2 prefix, ...) is hit by
+// both flag values in every run.
+var (
+	ctx1   = []byte{0x00}
+	ctxMid = bytes.Repeat([]byte{0x5a}, 100)
+	ctx255 = bytes.Repeat([]byte{0xc7}, 255)
+)
+
 func buildVariants() []*variant {
 	return []*variant{
 		{"pure", refed.Variant{}, crypto.Hash(0)},
-		{"ctx1", refed.Variant{Context: []byte{0x00}}, crypto.Hash(0)},
-		{"ctx255", refed.Variant{Context: bytes.Repeat([]byte{0xc7}, 255)}, crypto.Hash(0)},
+		{"ctx1", refed.Variant{Context: ctx1}, crypto.Hash(0)},
+		{"ph+ctx255", refed.Variant{Ph: true, Context: ctx255}, crypto.SHA512},
+		{"ctx100", refed.Variant{Context: ctxMid}, crypto.Hash(0)},
 		{"ph", refed.Variant{Ph: true}, crypto.SHA512},
-		{"ph+ctx", refed.Variant{Ph: true, Context: []byte("C01 context")}, crypto.SHA512},
+		{"ctx255", refed.Variant{Context: ctx255}, crypto.Hash(0)},
+		{"ph+ctx1", refed.Variant{Ph: true, Context: ctx1}, crypto.SHA512},
+		{"ph+ctx100", refed.Variant{Ph: true, Context: ctxMid}, crypto.SHA512},
 	}
 }
+
+// pickVar selects n of the variants, rotating with salt.
+func pickVar(vi, salt, n, total int) bool { return ((vi-salt)%total+total)%total < n }
 
 // honestS = r + k*a mod L with unknown logarithms taken as 0.
 func honestS(a, r *ent, va *variant, m []byte) *big.Int {
@@ -362,11 +377,39 @@ func (k *checker) describe(pk, m, sig []byte, va *variant, fl refed.Flags) (stri
 // evalCase compares the library with the predicate for one (A, m, sig, variant) under all 32 flag sets
 // and both entry points.  epk is the expanded key (nil when the library refused to build one).
 func (k *checker) evalCase(w *mc.W, kind string, pk, m, sig []byte, va *variant, f *refed.Facts, epk *ed.ExpandedPublicKey) {
+	k.evalCaseOpts(w, kind, pk, m, sig, va, f, epk, k.opts)
+}
+
+// liteOpts: the four presets, the strictest set and the strict cofactorless set (for the sweeps).
+func (k *checker) liteOpts() []libOpts {
+	var out []libOpts
+	for _, o := range k.opts {
+		switch o.fl {
+		case refed.PresetDefault, refed.PresetStdLib, refed.PresetFIPS, refed.PresetZIP215, refed.Flags{}, refed.Flags{Cofactorless: true}:
+			out = append(out, o)
+		}
+	}
+	return out
+}
+
+func (k *checker) evalCaseOpts(w *mc.W, kind string, pk, m, sig []byte, va *variant, f *refed.Facts, epk *ed.ExpandedPublicKey, opts []libOpts) {
 	nontrivial := f.LenOK && f.SInRange
 	var verdict [32]bool
 	for _, o := range k.opts {
+		verdict[o.mask], _ = f.Verdict(o.fl)
+	}
+	// The flag sets are run back to back on the same key / signature / expanded-key object; the direction of the sweep
+	// alternates with the case (a function of its bytes), so that neither "strict first" nor "permissive first" is the
+	// only history ever seen by state keyed on the key or signature bytes.
+	if len(sig) > 32 && len(pk) > 0 && (sig[0]^sig[32]^pk[0])&1 == 1 {
+		rev := make([]libOpts, len(opts))
+		for i, o := range opts {
+			rev[len(opts)-1-i] = o
+		}
+		opts = rev
+	}
+	for _, o := range opts {
 		exp, why := f.Verdict(o.fl)
-		verdict[o.mask] = exp
 		lo := &ed.Options{Hash: va.hash, Context: string(va.v.Context), Verify: o.vo}
 		got, pan := call(func() bool { return ed.VerifyWithOptions(pk, m, sig, lo) })
 		gotE, panE := false, false
@@ -525,9 +568,14 @@ func run(c *mc.Ctx) {
 			for ir, r := range ka.R {
 				for vi, va := range vars {
 					// quick: one variant per pair (rotating), two when both logarithms are known (accepting cases)
-					// (thorough: every variant for the first key, the quick rule for the second)
-					if (!c.Thorough || ki > 0) && vi != (ia+ir)%len(vars) && !(a.sc != nil && r.sc != nil && vi == (ia+ir+2)%len(vars)) {
-						continue
+					// (thorough: see below for the first key, the quick rule for the second)
+					known := a.sc != nil && r.sc != nil
+					if !c.Thorough || ki > 0 {
+						if vi != (ia+ir)%len(vars) && !(known && vi == (ia+ir+3)%len(vars)) {
+							continue
+						}
+					} else if !known && !pickVar(vi, ia+ir, 5, len(vars)) {
+						continue // thorough, key 0: all 8 variants when both logarithms are known, 5 rotating otherwise
 					}
 					salt := ((ki*len(ka.A)+ia)*len(ka.R)+ir)*len(vars) + vi
 					pairs = append(pairs, makeGroups(c.Seed, a, r, va, salt, nil)...)
@@ -582,7 +630,7 @@ func run(c *mc.Ctx) {
 		for ia, a := range as {
 			for ir, r := range rs {
 				for vi, va := range vars {
-					if !c.Thorough && vi != (ia+2*ir)%len(vars) {
+					if (!c.Thorough && vi != (ia+2*ir)%len(vars)) || !pickVar(vi, ia+2*ir, 5, len(vars)) {
 						continue
 					}
 					sv = makeGroups(c.Seed, a, r, va, 1000003+((ki*32+ia)*32+ir)*len(vars)+vi, sv)
@@ -637,7 +685,7 @@ func run(c *mc.Ctx) {
 					continue
 				}
 				for vi, va := range vars {
-					if !c.Thorough && vi != (ti+ia)%len(vars) {
+					if (!c.Thorough && vi != (ti+ia)%len(vars)) || !pickVar(vi, ti+ia, 5, len(vars)) {
 						continue
 					}
 					gs := makeGroups(c.Seed, a, re, va, 4000003+(ti*4+ia)*len(vars)+vi, nil)
@@ -673,7 +721,7 @@ func run(c *mc.Ctx) {
 					continue
 				}
 				for vi, va := range vars {
-					if !c.Thorough && vi != (2*ia+ki)%len(vars) {
+					if (!c.Thorough && vi != (2*ia+ki)%len(vars)) || !pickVar(vi, 2*ia+ki, 5, len(vars)) {
 						continue
 					}
 					gs := makeGroups(c.Seed, a, r, va, 2000003+((ki*4+ia)*4+ir)*len(vars)+vi, nil)
@@ -768,6 +816,119 @@ func run(c *mc.Ctx) {
 		k.evalCase(w, kind, pk, m, sig, va, f, k.expand(w, pk))
 		if j == 300 {
 			w.Sample(map[string]string{"sub": "flips", "A": g.a.label, "R": g.r.label, "variant": g.va.name, "flipped_bit": "300"})
+		}
+	})
+
+	// ---- sub-space "collisions": inputs that FORCE collisions on anything state could be keyed by ----
+	// Each index owns a context string nobody else uses, so the order of first use is fixed inside the index and the case
+	// replays alone: the same context under ctx then ph (odd indices: ph then ctx), the same 64-byte message under
+	// pure / ctx / ph / ph+ctx, one expanded-key object across all of them, every signature also offered under the
+	// neighbouring variant (must be rejected), the same R-bytes under two different keys, and the first step once more
+	// after everything else has run.
+	lite := k.liteOpts()
+	honA := pickEnt(keys[0].A, "aB+T0")[0]
+	honR := pickEnt(keys[0].R, "rB+T0")[0]
+	key2 := refed.NewKey(mc.Bytes(c.Seed, "c01-seed", 1, 32))
+	honA2 := &ent{key2.Pub, new(big.Int).Mod(key2.A, ref.L), 0, "a'B"}
+	mkSig := func(a, r *ent, va *variant, m []byte) []byte {
+		return append(append([]byte{}, r.enc...), ref.LE32(honestS(a, r, va, m))...)
+	}
+	nColl := c.Pick(24, 120)
+	collLens := []int{4, 32, 95, 100, 158, 255}
+	c.Par("collisions", nColl, func(w *mc.W, i int) {
+		ctx := mc.Bytes(c.Seed, "c01-collision-context", i, collLens[i%len(collLens)])
+		m := mc.Bytes(c.Seed, "c01-collision-message", i, 64)
+		vs := []*variant{
+			{"ctx(own context)", refed.Variant{Context: ctx}, crypto.Hash(0)},
+			{"ph(own context)", refed.Variant{Ph: true, Context: ctx}, crypto.SHA512},
+			{"pure", refed.Variant{}, crypto.Hash(0)},
+			{"ph", refed.Variant{Ph: true}, crypto.SHA512},
+		}
+		if i%2 == 1 {
+			vs[0], vs[1] = vs[1], vs[0]
+			vs[2], vs[3] = vs[3], vs[2]
+		}
+		epk := k.expand(w, honA.enc)
+		epk2 := k.expand(w, honA2.enc)
+		run := func(kind string, a *ent, e *ed.ExpandedPublicKey, sig []byte, va *variant) {
+			k.evalCaseOpts(w, kind, a.enc, m, sig, va, refed.Analyse(a.enc, m, sig, va.v), e, lite)
+		}
+		sigs := make([][]byte, len(vs))
+		for j, va := range vs {
+			sigs[j] = mkSig(honA, honR, va, m)
+			run("collision/same-message-next-variant", honA, epk, sigs[j], va)
+			if j > 0 {
+				run("collision/signature-of-previous-variant", honA, epk, sigs[j-1], va)
+			}
+		}
+		run("collision/signature-of-previous-variant", honA, epk, sigs[len(vs)-1], vs[0])
+		// the same R-bytes under another key
+		sig2 := mkSig(honA2, honR, vs[0], m)
+		run("collision/same-R-other-key", honA2, epk2, sig2, vs[0])
+		run("collision/same-R-other-key", honA, epk, sig2, vs[0])
+		run("collision/same-R-other-key", honA2, epk2, sigs[0], vs[0])
+		// and every variant again, now that all of them have been used with this context / message / key
+		for j, va := range vs {
+			run("collision/revisit", honA, epk, sigs[j], va)
+		}
+		if i == 0 {
+			w.Sample(map[string]string{"sub": "collisions", "context": mc.Hex(ctx), "message": mc.Hex(m), "order": vs[0].name + " -> " + vs[1].name})
+		}
+	})
+
+	// ---- sub-space "length-sweep": EVERY message length 0..300 x context lengths {0,1,32,95,100,158,254,255}, every context
+	// length 0..255 for ph and for ctx with two message lengths: honest signatures, so a fast path that loses or
+	// misplaces a byte at one exact size shows up as a rejected valid signature.  Messages and contexts are prefixes of
+	// two fixed strings, i.e. the same context prefix is used by ctx and ph, the same message by every context.
+	type sweepCase struct {
+		va *variant
+		n  int
+		a  *ent
+	}
+	var sweep []sweepCase
+	{
+		ctxBase := mc.Bytes(c.Seed, "c01-sweep-context", 0, 255)
+		vCtx := func(cl int) *variant {
+			if cl == 0 {
+				return &variant{"pure", refed.Variant{}, crypto.Hash(0)}
+			}
+			return &variant{fmt.Sprintf("ctx%d", cl), refed.Variant{Context: ctxBase[:cl]}, crypto.Hash(0)}
+		}
+		vPh := func(cl int) *variant {
+			return &variant{fmt.Sprintf("ph+ctx%d", cl), refed.Variant{Ph: true, Context: ctxBase[:cl]}, crypto.SHA512}
+		}
+		as := []*ent{honA}
+		if c.Thorough {
+			as = append(as, honA2)
+		}
+		for _, a := range as {
+			for _, cl := range []int{0, 1, 32, 95, 100, 158, 254, 255} {
+				va := vCtx(cl)
+				for n := 0; n <= 300; n++ {
+					sweep = append(sweep, sweepCase{va, n, a})
+				}
+			}
+			for cl := 0; cl <= 255; cl++ {
+				sweep = append(sweep, sweepCase{vPh(cl), 64, a})
+				if cl > 0 {
+					va := vCtx(cl)
+					sweep = append(sweep, sweepCase{va, 0, a}, sweepCase{va, 64, a})
+				}
+			}
+		}
+	}
+	c.Rep.Extra["length_sweep_cases"] = len(sweep)
+	sweepMsg := mc.Bytes(c.Seed, "c01-sweep-message", 0, 300)
+	c.Par("length-sweep", len(sweep), func(w *mc.W, i int) {
+		sc := sweep[i]
+		m := sweepMsg[:sc.n]
+		if sc.va.v.Ph {
+			m = refed.Prehash(sweepMsg[:sc.n+i%7]) // a 64-byte digest
+		}
+		sig := mkSig(sc.a, honR, sc.va, m)
+		k.evalCaseOpts(w, "length-sweep", sc.a.enc, m, sig, sc.va, refed.Analyse(sc.a.enc, m, sig, sc.va.v), k.expand(w, sc.a.enc), lite)
+		if i%1501 == 0 {
+			w.Sample(map[string]string{"sub": "length-sweep", "variant": sc.va.name, "message_len": fmt.Sprint(len(m)), "context_len": fmt.Sprint(len(sc.va.v.Context))})
 		}
 	})
 
